@@ -6,7 +6,7 @@ from hypothesis import strategies as st
 from conda_content_trust import authentication as A
 
 from props import C03
-from vlib import cfgunit, configrun, gen_deleg, gen_envelope as GE, gen_json as G, gen_metadata as GM, keys, ref_grammar as g, \
+from vlib import cfgunit, configrun, hostile, gen_deleg, gen_envelope as GE, gen_json as G, gen_metadata as GM, keys, ref_grammar as g, \
     ref_schema, ref_verify as RV
 from vlib.ref_canon import canon
 from vlib.runner import Unit, Violation
@@ -75,6 +75,8 @@ def check_binding(case):
         raise Violation("metadata declaring type %r was accepted as role %r (signature map has %d entries, "
                         "%d manipulations)" % (U["signed"]["type"], role, len(U["signatures"]), case["n_manip"]),
                         bucket="type not bound to role")
+    hostile.never_accepts(lambda: (lambda u=copy.deepcopy(U), t=copy.deepcopy(T): A.verify_delegation(role, u, t, gpg=gpg)),
+                          "verify_delegation(%r) on metadata declaring type %r" % (role, utype))
     return {"nontrivial": case["n_manip"] > 0, "labels": ["observed=" + observed, "manip=%d" % min(case["n_manip"], 4),
                                                            "gpg" if gpg else "raw"]}
 
